@@ -120,6 +120,7 @@ MUTATIONS = [
     ("c06-depfail-marks-running-job-error", "scheduler/base.py", "            if self.state.notstarted():\n                self.state = JobState.ERROR", "            if not self.state.finished():\n                self.state = JobState.ERROR", ["C06"]),
     ("c10-revert-swallowed-exit", "run.py", "            if e.code == 0 and not self.failed:", "            if e.code == 0:", ["C10"]),
     ("c10-revert-failed-beside-done", "run.py", "        if not self.donepath.is_file():\n            # (no failure marker for a task that has already succeeded)\n            self.failedpath.write_text(str(code))", "        self.failedpath.write_text(str(code))", ["C10"]),
+    ("c04-copy-dependencies-drops-task", "core/objects.py", "            assert self.__xpm__.task is None\n            self.__xpm__.task = other.__xpm__.task", "            assert self.__xpm__.task is None", ["C04"]),
     # C20
     ("c20-deprecate-keeps-id", "core/types.py", "        self.identifier = parent.identifier\n        self._deprecated = True", "        self._deprecated = True", ["C20"]),
     ("c20-cleanup-removes", "tools/jobs.py", "                        oldjobpath.rename(newjobpath)", "                        import shutil\n                        shutil.rmtree(oldjobpath)", ["C20"]),
